@@ -277,8 +277,7 @@ def ref_eval(st, items, file, files=None, strip=False, expander=None, ignore_inc
                 text += '(' + ','.join(p if d is None else '%s=%s' % (p, d) for p, d in x.params) + ')'
             if x.body is not None:
                 text += ' ' + x.body
-            for t in split_ws(text):
-                st.out.append(Tok(t, ('kept', file, x.off)))
+            st.out.append(Tok(text, ('kept', file, x.off)))
         elif isinstance(x, Undef):
             st.table.pop(x.name, None)
             for t in ('`undef', x.name):
@@ -456,3 +455,226 @@ def ref_include(st, x, file, strip, expander, include_paths):
     finally:
         st.depth_inc -= 1
         st.rd, st.idp = saved
+
+
+# ------------------------------------------------------------------------------------------------
+# text-level reference expander for function-like macros (IEEE 1800-2017 22.5.1)
+
+import re as _re
+_IDENT = _re.compile(r'[A-Za-z_][A-Za-z0-9_]*')
+
+
+def bind_args(name, params, args):
+    """formal -> actual text (IEEE 22.5.1: default for an omitted/empty actual, nothing if no default
+    for an explicitly empty one, error when a required actual is missing)"""
+    params = params or []
+    if params and args is None:
+        raise RefError('DefineNoArgs', name)
+    m = {}
+    args = args or []
+    for i, (p, dflt) in enumerate(params):
+        if i < len(args):
+            a = args[i]
+            if a is None or a.strip() == '':
+                m[p] = dflt if dflt is not None else ''
+            else:
+                m[p] = a.rstrip()
+        else:
+            if dflt is None:
+                raise RefError('DefineArgNotFound', p)
+            m[p] = dflt
+    return m
+
+
+def substitute_body(body, amap):
+    """formal substitution + `` / `" / `\\`" / line continuation / // comment removal"""
+    out = []
+    i = 0
+    n = len(body)
+    # leading white space (and a leading line continuation) is not part of the macro text
+    while i < n and body[i] in ' \t\r\n\x0c\\':
+        if body[i] == '\\':
+            if body[i + 1:i + 2] == '\n':
+                i += 2
+                break
+            break
+        i += 1
+    in_str = False        # ordinary string literal: untouched
+    while i < n:
+        c = body[i]
+        if in_str:
+            out.append(c)
+            if c == '\\' and i + 1 < n:
+                out.append(body[i + 1])
+                i += 2
+                continue
+            if c == '"':
+                in_str = False
+            i += 1
+            continue
+        if body.startswith('`\\`"', i):
+            out.append('\\"')
+            i += 4
+            continue
+        if body.startswith('`"', i):
+            out.append('"')
+            i += 2
+            continue
+        if body.startswith('``', i):
+            i += 2
+            continue
+        if body.startswith('//', i):
+            j = body.find('\n', i)
+            if j < 0:
+                break
+            i = j
+            continue
+        if c == '\\' and body.startswith('\\\r\n', i):
+            out.append('\r\n')
+            i += 3
+            continue
+        if c == '\\' and body[i + 1:i + 2] in ('\n', '\r'):
+            out.append(body[i + 1])
+            i += 2
+            continue
+        if c == '"':
+            in_str = True
+            out.append(c)
+            i += 1
+            continue
+        m = _IDENT.match(body, i)
+        if m:
+            w = m.group(0)
+            out.append(amap[w] if w in amap else w)
+            i = m.end()
+            continue
+        out.append(c)
+        i += 1
+    return ''.join(out)
+
+
+def split_actuals(s, i):
+    """s[i] == '(' : returns (list of actual texts or None for empty, index after ')')"""
+    depth = 0
+    cur = []
+    args = []
+    j = i + 1
+    n = len(s)
+    while j < n:
+        c = s[j]
+        if c == '"':
+            k = j + 1
+            while k < n and s[k] != '"':
+                if s[k] == '\\':
+                    k += 1
+                k += 1
+            cur.append(s[j:k + 1])
+            j = k + 1
+            continue
+        if c in '([{':
+            depth += 1
+        elif c in ')]}':
+            if depth == 0 and c == ')':
+                args.append(''.join(cur))
+                return [a.strip() if a.strip() else None for a in args], j + 1
+            depth -= 1
+        elif c == ',' and depth == 0:
+            args.append(''.join(cur))
+            cur = []
+            j += 1
+            continue
+        cur.append(c)
+        j += 1
+    raise RefError('Preprocess')
+
+
+def expand_text(st, text, depth_rd):
+    """expand every macro usage in a directive-free text (usages only) with the current table"""
+    out = []
+    i = 0
+    n = len(text)
+    while i < n:
+        c = text[i]
+        if c == '"':
+            k = i + 1
+            while k < n and text[k] != '"':
+                if text[k] == '\\':
+                    k += 1
+                k += 1
+            out.append(text[i:k + 1])
+            i = k + 1
+            continue
+        if text.startswith('//', i):
+            k = text.find('\n', i)
+            k = n if k < 0 else k
+            out.append(text[i:k])
+            i = k
+            continue
+        if text.startswith('/*', i):
+            k = text.find('*/', i + 2)
+            k = n if k < 0 else k + 2
+            out.append(text[i:k])
+            i = k
+            continue
+        if c == '`':
+            m = _IDENT.match(text, i + 1)
+            if not m:
+                raise RefError('Preprocess')
+            name = m.group(0)
+            j = m.end()
+            args = None
+            k = j
+            while k < n and text[k] in ' \t':
+                k += 1
+            if k < n and text[k] == '(':
+                args, j2 = split_actuals(text, k)
+                paren_text = text[k:j2]
+                j = j2
+            else:
+                paren_text = None
+            out.append(expand_usage(st, name, args, paren_text, depth_rd))
+            i = j
+            continue
+        out.append(c)
+        i += 1
+    return ''.join(out)
+
+
+def expand_usage(st, name, args, paren_text, depth_rd):
+    if isinstance(depth_rd, int) and depth_rd + 1 > LIMIT:
+        raise RefError('ExceedRecursiveLimit')
+    if name == '__LINE__' or name == '__FILE__':
+        raise RuntimeError('position macros are not handled by the text expander')
+    if not ref_defined(st, name):
+        raise RefError('DefineNotFound', name)
+    v = ref_value(st, name)
+    if v is None:
+        return ''
+    params = v.get('params') or []
+    amap = bind_args(name, params, args)
+    if v.get('body') is None:
+        return ''
+    t = substitute_body(v['body'], amap)
+    if not params and paren_text is not None:
+        t = t + paren_text
+    return expand_text(st, t, depth_rd + 1)
+
+
+def text_expander(st, use, v, file, strip):
+    """expander for ref_eval: function-like and object-like macros, text level"""
+    args = use.args
+    paren = None
+    if args is not None:
+        paren = '(' + ','.join('' if a is None else a for a in args) + ')'
+        args = [None if (a is None or a.strip() == '') else a.strip() for a in args]
+    t = expand_usage(st, use.name, args, paren, st.rd if isinstance(st.rd, int) else 0)
+    prov = ('macro', v.get('file'), v.get('head_end'))
+    for kind, tok in _lex(t):
+        if strip and kind == 'com':
+            continue
+        st.out.append(Tok(tok, prov))
+
+
+def _lex(text):
+    import ppsuite
+    return ppsuite.lex_tokens(text)
